@@ -90,6 +90,18 @@ def substitute(examples, old, new):
     return [None if s is None else s.replace(old, new) for s in examples]
 
 
+def substitute_suffix(examples, suffix, new):
+    """Replace a trailing `suffix` of every example (list or dict form)."""
+    def f(s):
+        return s[:-len(suffix)] + new if s.endswith(suffix) else s
+    if isinstance(examples, dict):
+        out = {}
+        for (k, n) in examples.items():
+            out[f(k)] = out.get(f(k), 0) + n
+        return out
+    return [None if s is None else f(s) for s in examples]
+
+
 def regex_kinds(rexes):
     """Coarse description of the returned list for the outcome statistic."""
     flags = set()
@@ -149,7 +161,18 @@ class RexDriver(Check):
              ('n2-structured', 'all pairs of structured examples x options '
               'within 2 deviations'),
              ('sampled', 'E2: sets of 3-5 from the 8-string pool x 8 Size '
-              'settings x seeds None/0/1, every random.sample answer')]
+              'settings x seeds None/0/1, every random.sample answer'),
+             ('families', 'structured families: 2-4 strings of one shape '
+              '(1-3 fragments over 7 character classes) whose run lengths '
+              '{0,1,2,3,4,6} differ in one fragment or in all x 12 option '
+              'points (variableLengthFrags off/on x 6)'),
+             ('two-shape', 'two shapes differing in one fragment class, and '
+              'two-shape quadruples / pairs of equal frequency, x '
+              'variableLengthFrags off/on (x 6 for the former)'),
+             ('refine', 'E2: sets of 4-7 from pools of one common shape that '
+              'make the fragment class change between passes (a-f / non-hex '
+              'letters / digits / upper / non-ASCII digit / trailing newline '
+              '/ extra letters) x 8 Size settings, every sample answer')]
         if tier == 'thorough':
             L += [('t-n1-wide', 'singles over Sigma_t (L<=2) and Sigma_q '
                    '(L=3) x full lattice [hash seed 0 only]'),
@@ -202,6 +225,17 @@ class RexDriver(Check):
                                         A.SIZE_SETTINGS('quick'), A.SEEDS,
                                         ['list'], ['canonical']):
                 yield c
+        elif layer == 'families':
+            for xs in A.family_sets(tier):
+                yield {'ex': xs, 'pts': 'family', 'forms': 'list'}
+        elif layer == 'two-shape':
+            for xs in A.two_shape_sets(tier):
+                yield {'ex': xs, 'pts': 'family', 'forms': 'list'}
+            for xs in A.tie_sets(tier):
+                yield {'ex': xs, 'pts': 'vlf', 'forms': 'list'}
+        elif layer == 'refine':
+            for c in self.refine_cases():
+                yield c
         elif layer == 't-n1-wide':
             seen = set(self.pool_q())
             for s in (A.strings_upto(A.SIGMA_T, 2)
@@ -239,6 +273,15 @@ class RexDriver(Check):
         else:
             raise ValueError(layer)
 
+    def refine_cases(self):
+        for (name, pool, sizes, kw) in A.REFINE_POOLS:
+            for n in sizes:
+                for xs in A.example_sets(pool, n):
+                    for st in A.SIZE_SETTINGS('quick'):
+                        yield {'ex': xs, 'size': st, 'seed': None,
+                               'form': 'list', 'order': 'canonical',
+                               'opts': kw}
+
     def sampled_cases(self, pool, sizes, settings, seeds, forms, orders):
         for n in sizes:
             for xs in A.example_sets(pool, n):
@@ -273,6 +316,12 @@ class RexDriver(Check):
             opts = full
         elif name == 'rest':
             opts = [o for o in full if A.n_deviations(o, ax) > 2]
+        elif name == 'family':
+            opts = [dict(o) for o in A.FAMILY_OPTION_POINTS]
+        elif name == 'vlf':
+            opts = [dict(o) for o in A.FAMILY_OPTION_POINTS
+                    if A.n_deviations(o) <= 1 and A.n_deviations(
+                        dict(o, variableLengthFrags=False)) == 0]
         else:
             opts = A.option_lattice(int(name[3:]), ax)
         cache[name] = opts
@@ -288,8 +337,8 @@ class RexDriver(Check):
         ax = self.axes()
         out = [('list', o) for o in self.points(pts)]
         if forms == 'all':
-            bound = 99 if pts == 'full' else int(pts[3:]) if pts != 'rest' \
-                else 0
+            bound = (99 if pts == 'full' else
+                     int(pts[3:]) if pts.startswith('dev') else 0)
             out += [('dict', o) for o in self.points('dev2' if pts == 'full'
                                                      else pts)
                     if A.n_deviations(o, ax) + 1 <= bound]
@@ -564,6 +613,7 @@ class C03(RexDriver):
         ex, size, seed = case['ex'], case['size'], case['seed']
         form, order = case['form'], case['order']
         opts = dict(A.DEFAULT_OPTIONS)
+        opts.update(case.get('opts') or {})
         supplied = self.supplied(ex, form)
         kept = M.kept_examples(supplied)
         R.nontrivial = bool(kept)
@@ -620,13 +670,45 @@ class C03(RexDriver):
             elif all(s in working for s in um):
                 sig = 'sampled-last-attempt'
             else:
-                sig = 'sampled-not-considered'
+                # an unmatched example never reached the working set: the
+                # loop's own re-check accepted it.  Why?
+                sig = ('sampled-not-considered'
+                       + self.sampled_recheck_cause(rex, um, working))
             R.viol(sig, 'every-kept-example-matched',
                    {'examples': supplied, 'form': form, 'size': size,
                     'seed': seed, 'sample_choices': choices,
                     'sample_order': order, 'returned': rex, 'unmatched': um,
                     'final_working_set': working}, sub)
         R.states = nexec
+
+
+    def sampled_recheck_cause(self, rex, um, working):
+        """Why did the loop's own re-check accept an example that the
+        returned expressions do not match in full?  Two known ways, tested
+        directly with python re on the first such example:
+          :trailing-newline       some returned expression matches it with
+                                  re.match ('$' before the final newline) but
+                                  not in full
+          :nonascii-digit:U+XXXX  some returned expression matches it in full
+                                  once [0-9] is read as \\d (the re-check used
+                                  the perl form, the output is portable)
+        '' otherwise."""
+        for s in um:
+            if working is not None and s in working:
+                continue
+            for r in rex:
+                c = M.compile_rex(r)
+                if c is not None and s.endswith('\n') and c.match(s) \
+                        and not M.fullmatch(r, s):
+                    return ':trailing-newline'
+            nad = [ch for ch in s if ch.isdigit() and not ('0' <= ch <= '9')]
+            if nad:
+                for r in rex:
+                    if '[0-9]' in r and M.fullmatch(r.replace('[0-9]', '\\d'),
+                                                    s):
+                        return ':nonascii-digit:U+%04X' % ord(nad[0])
+            return ''
+        return ''
 
 
 CHECK = C03()
